@@ -179,6 +179,9 @@ TypeOK == /\ m.plen \in 0..MaxP
           /\ out.kind \in {"none", "raised", "val"}
           /\ out.kind = "val" => out.plen \in Nat
 
+(* every operation is a query: the map it is called on is left as it was *)
+ReceiverPreserved == [][m' = m]_vars
+
 (* no operation yields coordinates outside the parent *)
 InParent == out.kind = "val" =>
                \A i \in 1..Len(out.ents) : out.ents[i] = Lost \/ out.ents[i] \in 0..(out.plen - 1)
